@@ -31,6 +31,33 @@ func runC19(c *core.Ctx, r *core.Reporter) {
 	c19total(c, r)
 	// the FuncInfo completeness rule is shared with C08.patch
 	c19funcdoc(c, r)
+	c19pinned(c, r)
+}
+
+// c19pinned: what is saved does not depend on how the session happens to print.
+func c19pinned(c *core.Ctx, r *core.Reporter) {
+	const rule = "C19.pinned"
+	r.Rule(rule, "no function of the load-form writer (package pp) starts from the session's default printer (slip.DefaultPrinter(), which carries the global *print-base*, *print-prec*, *print-length* ... settings): saved text is written with pinned controls, so that a session that did (setq *print-base* 16) still saves 255 as 255", 50)
+	dp := c.LookupFunc("", "DefaultPrinter")
+	if dp == nil {
+		r.Undecided(rule, "slip.DefaultPrinter", "-", "anchor does not resolve")
+		return
+	}
+	dpFn := c.SSAFunc(dp)
+	for _, fn := range c.ModuleFuncs() {
+		if takesTestingT(fn) || fn.Pkg == nil || fn.Pkg.Pkg.Path() != core.SlipPath+"/pp" || fn.Synthetic != "" {
+			continue
+		}
+		bad := ""
+		for _, b := range fn.Blocks {
+			for _, in := range b.Instrs {
+				if call, ok := in.(*ssa.Call); ok && call.Call.StaticCallee() == dpFn {
+					bad = c.Pos(call.Pos())
+				}
+			}
+		}
+		r.Decide(bad == "", rule, core.SSAName(fn), c.Pos(fn.Pos()), orOKs(bad, "does not read the default printer"))
+	}
 }
 
 // storageOf classifies the value being ranged over as one of the registries.
